@@ -451,6 +451,10 @@ HARNESSES = [
     Harness('rounding_and_integer_type', h_round, setup=setup_round,
             cases=[{'shape': [1, 2], 'enc': 'dense'},
                    {'shape': [2, 1], 'enc': 'dense', 'chunks': [1, 1]},
+                   {'shape': [2, 2], 'enc': 'dense', 'chunks': [2, 1],
+                    'range': [250, 260]},
+                   {'shape': [2, 2], 'enc': 'dense', 'chunks': [1, 2],
+                    'range': [-2, 2]},
                    {'shape': [1, 2], 'enc': 'csr'},
                    {'shape': [2, 2], 'enc': 'csr', 'chunks': [1],
                     'range': [250, 260]},
